@@ -100,6 +100,7 @@ type Explorer struct {
 	env       map[string]value
 	onces     map[*value]bool
 	syncMaps  map[*value]*syncMapModel
+	ufCache   map[string][2]string
 	interp    *interpreter
 	steps     int
 	violated  bool
@@ -131,6 +132,7 @@ func (e *Explorer) resetPath() {
 	e.steps = 0
 	e.violated = false
 	e.freezeOn = false
+	e.ufCache = map[string][2]string{}
 	e.flags = 0
 	e.frozen, e.frozenMaps, e.pooledObjs, e.monitored = nil, nil, map[*value]bool{}, map[string]bool{}
 }
